@@ -1135,12 +1135,10 @@ class TaskPool:
 
         for itask in tasks:
             if itask.tdef.name in orphans:
-                if (
-                    itask.state(TASK_STATUS_WAITING)
-                    or itask.state.is_held
-                    or itask.state.is_queued
-                ):
+                if itask.state(TASK_STATUS_WAITING):
                     # Remove orphaned task if it hasn't started running yet.
+                    # (Held and queued tasks that have not started are waiting;
+                    # a held task that is running must stay.)
                     self.remove(itask, 'task definition removed')
                 else:
                     # Keep active orphaned task, but stop it from spawning.
